@@ -643,3 +643,127 @@ Example nonflat_follows_nonvacuous :
   never_held c steps = true /\ forallb oldest_first steps = true /\
   quiescent (run c steps) = true /\ act (t_ticks (c_tgt (run c steps))) 0 = true.
 Proof. vm_compute. repeat split; reflexivity. Qed.
+
+(* ------------------------------------------------------------ non-flat, per-state order *)
+
+Lemma last_ev_cons_other : forall j x l, Nat.eqb (m_st x) j = false ->
+  last_ev j (x :: l) = last_ev j l.
+Proof. intros. simpl. rewrite H. destruct (last_ev j l); auto. Qed.
+
+(* taking out a call that no older call for the same state precedes *)
+Lemma last_ev_remove : forall i bag m,
+  nth_error bag i = Some m ->
+  existsb (fun x => Nat.eqb (m_st x) (m_st m)) (firstn i bag) = false ->
+  forall j,
+    (Nat.eqb (m_st m) j = false -> last_ev j (remove_nth i bag) = last_ev j bag) /\
+    (Nat.eqb (m_st m) j = true ->
+       match last_ev j (remove_nth i bag) with
+       | Some k => last_ev j bag = Some k
+       | None => last_ev j bag = Some (m_kind m)
+       end).
+Proof.
+  induction i; intros bag m Hn Hold j; destruct bag as [|x rest]; try discriminate.
+  - simpl in Hn. inversion Hn; subst x. cbn [remove_nth]. split; intro H.
+    + rewrite last_ev_cons_other; auto.
+    + simpl. destruct (last_ev j rest); auto. rewrite H. auto.
+  - simpl in Hn. cbn [firstn existsb] in Hold. apply orb_false_iff in Hold.
+    destruct Hold as [Hx Hold]. cbn [remove_nth].
+    destruct (IHi rest m Hn Hold j) as [IH1 IH2]. split; intro H.
+    + simpl. rewrite IH1; auto.
+    + assert (Hxj : Nat.eqb (m_st x) j = false).
+      { apply Nat.eqb_eq in H. subst j. auto. }
+      rewrite !last_ev_cons_other by auto. apply IH2. exact H.
+Qed.
+
+Lemma Forall_remove_nth : forall {A} (P : A -> Prop) i l,
+  Forall P l -> Forall P (remove_nth i l).
+Proof.
+  induction i; intros l H; destruct l; simpl; auto; inversion H; subst; auto.
+Qed.
+
+Definition step_nf_ok (n : nat) (s : step) : bool := step_wf n s && negb (is_hold s).
+
+Definition nf_inv' (n : nat) (s : cfg) : Prop := c_reord s = true \/ nf_inv n s.
+
+Lemma reord_sticky : forall c s st, c_reord s = true -> c_reord (exec_step c s st) = true.
+Proof.
+  intros c s st H. destruct st; unfold exec_step.
+  - destruct (c_blocked s); cbn; auto.
+    destruct (src_op c (c_src s) k st) as [src' ev]. destruct ev; cbn; auto.
+    destruct (p_flat c); cbn; auto.
+    destruct (match m with MAdd => _ | MRem => _ end); cbn; auto.
+    destruct (deliver c (c_tgt s) _); cbn; auto.
+  - destruct (nth_error (c_bag s) i); auto.
+    destruct (deliver c (c_tgt s) m). cbn. rewrite H. auto.
+  - destruct (t_busy (c_tgt s)); cbn; auto.
+  - destruct (t_busy (c_tgt s)); cbn; auto.
+Qed.
+
+Lemma nf_step' : forall c s st,
+  p_flat c = false -> p_addonly c = false -> no_parks c ->
+  nf_inv' (p_n c) s -> step_nf_ok (p_n c) st = true ->
+  nf_inv' (p_n c) (exec_step c s st).
+Proof.
+  intros c s st Hf Hao Hp [Hr|I] Hok.
+  { left. apply reord_sticky. auto. }
+  destruct st as [k i a|i| |].
+  - right. apply nf_step; auto. unfold step_inorder_ok.
+    unfold step_nf_ok in Hok. rewrite Hok. reflexivity.
+  - destruct I as [Hidle Hls Hlt Hbag Hb Heq]. unfold exec_step.
+    destruct (nth_error (c_bag s) i) as [m|] eqn:Hn.
+    + rewrite deliver_idle by auto.
+      destruct (older_same (c_bag s) i m) eqn:Hos.
+      * left. cbn. apply orb_true_r.
+      * right.
+        assert (Hm : m_st m < p_n c).
+        { apply nth_error_In in Hn. rewrite Forall_forall in Hbag. auto. }
+        constructor; cbn; auto.
+        -- split; auto.
+        -- rewrite apply_mut_length. auto.
+        -- apply Forall_remove_nth. auto.
+        -- intro j. specialize (Heq j).
+           destruct (last_ev_remove i (c_bag s) m Hn Hos j) as [L1 L2].
+           rewrite apply_mut_act by lia. rewrite Nat.eqb_sym.
+           destruct (Nat.eqb (m_st m) j) eqn:E.
+           ++ specialize (L2 eq_refl).
+              destruct (last_ev j (remove_nth i (c_bag s))).
+              ** rewrite L2 in Heq. auto.
+              ** rewrite L2 in Heq. auto.
+           ++ rewrite L1 by auto. auto.
+    + right. constructor; auto.
+  - right. apply nf_step; auto.
+  - right. apply nf_step; auto.
+Qed.
+
+Lemma nonflat_follows_per_state_order_lemma : forall (c : pcfg) (steps : list step),
+  p_flat c = false -> p_addonly c = false ->
+  never_held c steps = true ->
+  forallb (step_wf (p_n c)) steps = true ->
+  let r := run c steps in
+  c_reord r = false ->
+  quiescent r = true ->
+  follows (p_n c) (c_src r) (t_ticks (c_tgt r)) = true.
+Proof.
+  intros c steps Hf Hao Hnh Hwf.
+  apply never_held_split in Hnh. destruct Hnh as [Hp Hh].
+  assert (I : nf_inv' (p_n c) (run c steps)).
+  { unfold run. apply (fold_invariant c (nf_inv' (p_n c)) (step_nf_ok (p_n c))).
+    - intros. apply nf_step'; auto.
+    - right. apply init_nf_inv.
+    - unfold step_nf_ok. apply forallb_and; auto. }
+  cbv zeta. intros Hr Hq. destruct I as [I|I]; [congruence|].
+  destruct I as [_ _ _ _ _ Heq].
+  unfold quiescent in Hq. repeat (apply andb_true_iff in Hq; destruct Hq as [Hq ?]).
+  destruct (c_bag (run c steps)); [|discriminate].
+  apply follows_of_pointwise'. intro j. specialize (Heq j). cbn in Heq. auto.
+Qed.
+
+(* calls for DIFFERENT states may overtake each other *)
+Example per_state_order_nonvacuous :
+  let c := {| p_flat := false; p_addonly := false; p_n := 2; p_multiS := [false; true];
+              p_multiT := [false; false]; p_parks := [] |} in
+  let steps := [SSrc MAdd 0 false; SSrc MAdd 1 false; SSrc MRem 0 false;
+                SDel 1; SDel 0; SDel 0] in
+  c_reord (run c steps) = false /\ quiescent (run c steps) = true /\
+  forallb oldest_first steps = false.
+Proof. vm_compute. repeat split; reflexivity. Qed.
